@@ -297,7 +297,8 @@ example : "a" ∉ [Mod.update C14ex.updB, .params [⟨"rate", 736330, none, some
     new class does not declare, the attribute of the variable it updates (which is its
     `baseline_variable` and is left untouched); before the first new start date the formula in
     force is the updated variable's one (all of them are kept when no formula is declared); from
-    that date on only the new formulas apply. -/
+    that date on only the new formulas apply. An attribute the class DOES declare is taken from the
+    class — including `end = ""` (ordinal 0), which clears the inherited end. -/
 theorem C14_update_inherits (h : Heap) (X : Oid) (cls : ClassDef) (h' : Heap) (bid : Oid) (b : VarObj)
     (hr : resolve h X cls.name = some bid) (hb : h.getVar bid = some b)
     (hu : loadVariable h X cls true = (h', .ok ())) :
@@ -305,13 +306,14 @@ theorem C14_update_inherits (h : Heap) (X : Oid) (cls : ClassDef) (h' : Heap) (b
       h'.getVar bid = some b ∧ vid ≠ bid ∧
       v.valueType = cls.valueType.getD b.valueType ∧ v.default = cls.default.getD b.default ∧
       v.entity = cls.entity.getD b.entity ∧ v.defPeriod = cls.defPeriod.getD b.defPeriod ∧
-      v.endDate = (match cls.endDate with | some e => some e | none => b.endDate) ∧
+      v.endDate = declaredEnd cls.endDate b.endDate ∧
       v.setInput = (match cls.setInput with | some x => some x | none => b.setInput) ∧
       (cls.formulas = [] → v.formulas = b.formulas) ∧
       (∀ d, (∀ p ∈ cls.formulas, d < p.1) → lastLE v.formulas d = lastLE b.formulas d) ∧
       (∀ d, (∃ p ∈ cls.formulas, p.1 ≤ d) →
           ∃ n s, lastLE v.formulas d = some (.base n) ∧ (s, n) ∈ cls.formulas ∧ s ≤ d) ∧
-      (cls.endDate = none → ∀ d, (∀ p ∈ cls.formulas, d < p.1) → getFormula v.view d = getFormula b.view d) := by
+      (cls.endDate = none → ∀ d, (∀ p ∈ cls.formulas, d < p.1) → getFormula v.view d = getFormula b.view d) ∧
+      (cls.endDate = some 0 → v.endDate = none) := by
   rcases loadVariable_inv h X cls true with ⟨e, he⟩ | ⟨s, m, v, hs, hm, _, hcons, he⟩
   · rw [he] at hu; cases hu
   · rw [he] at hu
@@ -335,7 +337,7 @@ theorem C14_update_inherits (h : Heap) (X : Oid) (cls : ClassDef) (h' : Heap) (b
       · exact hall _ hn
       · cases hnil
     refine ⟨h.next, v, hres, hv', hbase, hbk,
-      Nat.ne_of_gt hblt, hvt, hdf, hent, hdp, hend, hsi, ?_, hbefore, ?_, ?_⟩
+      Nat.ne_of_gt hblt, hvt, hdf, hent, hdp, hend, hsi, ?_, hbefore, ?_, ?_, ?_⟩
     · intro hnil
       rw [hnil] at hdecl
       simp only [declaredFormulas, Except.ok.injEq] at hdecl
@@ -351,10 +353,11 @@ theorem C14_update_inherits (h : Heap) (X : Oid) (cls : ClassDef) (h' : Heap) (b
         exact congrArg some hbn
       · cases hnil
     · intro hnone d hall
-      have hend' : v.endDate = b.endDate := by rw [hend, hnone]
+      have hend' : v.endDate = b.endDate := by rw [hend, hnone]; rfl
       show getFormula ⟨_, _, _, _, _, v.endDate, _, v.formulas, _⟩ d
         = getFormula ⟨_, _, _, _, _, b.endDate, _, b.formulas, _⟩ d
       simp only [getFormula, hend', hbefore d hall]
+    · intro h0; rw [hend, h0]; rfl
 
 example :
     let r := loadVariable C14ex.base.heap 2 C14ex.updB true
